@@ -256,20 +256,44 @@ Definition minted (f : string) (obs : value + Z) (v : value) : value :=
   | inr _ => v
   end.
 
-(* emergencypb.MemoryDevice.UpdateEmergency: InterceptAfter compares the *timestamppb.Timestamp POINTERS of
-   the stored message and of its merged clone: they are equal only when both are nil.  So the server time
-   is used when the level changes and neither the stored nor the written value has a change time. *)
-Definition emergency_after (obs : value + Z) (b v : value) : value :=
+(* a Timestamp field the server fills from its clock: the observed one, provided it lies inside the wall-clock
+   bracket of the call that the harness measured ("@t0" / "@t1" next to the request, unix ns); a stale, zero
+   or invented time does not *)
+Definition ts_nanos (t : value) : Z := (tint "seconds" (Some t) * 1000000000 + tint "nanos" (Some t))%Z.
+Definition in_bracket (q : ureq) (t : value) : bool :=
+  match vget "@t0" (u_req q), vget "@t1" (u_req q) with
+  | Some (VS (SInt lo)), Some (VS (SInt hi)) => ((lo <=? ts_nanos t) && (ts_nanos t <=? hi))%Z
+  | _, _ => true
+  end.
+Definition minted_time (f : string) (q : ureq) (obs : value + Z) (v : value) : value :=
+  match obs with
+  | inl w => match vget f w with
+             | Some t => if in_bracket q t then vset f t v else vset f (VS (SStr "<not the time of the call>")) v
+             | None => vset f (VS (SStr "<not minted>")) v
+             end
+  | inr _ => v
+  end.
+
+(* emergencypb.MemoryDevice.UpdateEmergency, InterceptAfter: "use server time if the level changed but the
+   change time didn't".  Until the repair in /repo the handler compared the *timestamppb.Timestamp POINTERS of
+   the stored message and of its merged clone, which are equal only when both are nil: a level change written
+   under a mask (or with the old time repeated) kept the stale change time ([emergency_after_v0]).  Now the
+   times are compared by value (proto.Equal). *)
+Definition opt_value_eqb (a b : option value) : bool := option_eqb value_eqb a b.
+Definition emergency_after (q : ureq) (obs : value + Z) (b v : value) : value :=
+  if negb (venum "level" v =? venum "level" b)%Z && opt_value_eqb (vget "level_change_time" b) (vget "level_change_time" v)
+  then minted_time "level_change_time" q obs v else v.
+Definition emergency_after_v0 (q : ureq) (obs : value + Z) (b v : value) : value :=
   if negb (venum "level" v =? venum "level" b)%Z && negb (vhas "level_change_time" b) && negb (vhas "level_change_time" v)
-  then minted "level_change_time" obs v else v.
+  then minted_time "level_change_time" q obs v else v.
 
 (* publicationpb.Model.withComputedProperties (WithResetReceipt, WithNewPublishTime, WithNewVersion) *)
-Definition publication_after (obs : value + Z) (v : value) : value :=
+Definition publication_after (q : ureq) (obs : value + Z) (v : value) : value :=
   let v1 := match vget "audience" v with
             | Some a => vset "audience" (vset "receipt" (VS (SEnum 1)) (vclear "receipt_rejected_reason" (vclear "receipt_time" a))) v
             | None => v
             end in
-  minted "version" obs (minted "publish_time" obs v1).
+  minted "version" obs (minted_time "publish_time" q obs v1).
 
 (* electricpb.ModelServer.UpdateActiveMode: only the id of the written message counts; the mode stored
    under it in the device's mode collection is Set WHOLE (no mask: it replaces the active mode), and the
@@ -340,7 +364,7 @@ Definition hand_rule (ty : string) (h : hrule) (base : option value) (q : ureq) 
           | None => None
           | Some b =>
               match plain_write ty None (u_um q) base res with
-              | Some (inl v) => Some (inl (emergency_after obs b v))
+              | Some (inl v) => Some (inl (emergency_after q obs b v))
               | r => r
               end
           end
@@ -353,7 +377,7 @@ Definition hand_rule (ty : string) (h : hrule) (base : option value) (q : ureq) 
               | Some (inl v) =>
                   let want := vstr "version" (u_req q) in
                   if negb (String.eqb want "") && negb (String.eqb (vstr "version" b) want) then Some (inr 9%Z)
-                  else Some (inl (publication_after obs v))
+                  else Some (inl (publication_after q obs v))
               | r => r
               end
           end
@@ -364,7 +388,7 @@ Definition hand_rule (ty : string) (h : hrule) (base : option value) (q : ureq) 
           | None, _ => Some (inr 5%Z)
           | Some mode, Some b =>
               match plain_write ty None None base mode with
-              | Some (inl v) => Some (inl (if String.eqb id (vstr "id" b) then v else minted "start_time" obs v))
+              | Some (inl v) => Some (inl (if String.eqb id (vstr "id" b) then v else minted_time "start_time" q obs v))
               | r => r
               end
           | Some _, None => None
